@@ -76,9 +76,15 @@ type c34RestoreIn struct {
 func c34GenRestore(t *rapid.T) c34RestoreIn {
 	var in c34RestoreIn
 	d := &in.D
-	d.Class = rapid.SampledFrom([]string{"hostile-field", "hostile-field", "hostile-field", "valid-flip", "valid-flip", "framed-arbitrary", "arbitrary", "short-frame", "valid"}).Draw(t, "class")
+	d.Class = rapid.SampledFrom([]string{"hostile-field", "hostile-field", "hostile-field", "valid-flip", "valid-flip", "framed-arbitrary", "arbitrary", "short-frame", "valid", "compressed"}).Draw(t, "class")
 	var idx []byte
 	switch d.Class {
+	case "compressed":
+		seg, ix, err := c34BrokerSegment(c34CompressedBatches(t, d))
+		if err != nil {
+			t.Fatalf("harness: BuildSegment over client blobs failed: %v", err)
+		}
+		in.Seg, idx = seg, ix
 	case "short-frame":
 		in.Seg = append([]byte("KAFS"), c34Arbitrary(t, 120)...)
 	case "hostile-field", "valid":
